@@ -610,6 +610,59 @@ def rule_reader(ctx):
                "read_exact can return Ok after a DATA frame although the buffer is not full and the stream has not ended (short read), or does not return when the buffer is full", r.loc())
 
 
+def rule_header_layout(ctx):
+    R = "C14.11"
+    ctx.rule(R, "frame header layout: the frame-kind, stream-kind and stream-id masks are pairwise disjoint; the id mask can represent every id the config admits (MAX_STREAM_COUNT <= mask + 1); each accessor extracts its field with its own mask, Header::new is the OR of the three fields, and the wire form is written and read with the same byte order - a frame is attributed to exactly the (kind, direction, id) its sender wrote")
+    from engine.guards import Inliner
+    H = "zksync_consensus_network::mux::header"
+    cv = lambda p: ctx.F.const(p) if hasattr(ctx.F, "const") else (ctx.F.consts.get(p) or {}).get("v")
+    fm, sm, im = cv(H + "::FrameKind::MASK"), cv(H + "::StreamKind::MASK"), cv(H + "::StreamId::MASK")
+    mx = cv("zksync_consensus_network::mux::config::MAX_STREAM_COUNT")
+    have = all(isinstance(x, int) for x in (fm, sm, im, mx))
+    ctx.floor(R, "header constants evaluated", sum(isinstance(x, int) for x in (fm, sm, im, mx)), 4)
+    if have:
+        disj = (fm & sm) == 0 and (fm & im) == 0 and (sm & im) == 0
+        ctx.ob(R, "masks disjoint", disj, "FrameKind 0x%04x, StreamKind 0x%04x, StreamId 0x%04x share no bit" % (fm, sm, im) if disj else
+               "header masks overlap (FrameKind 0x%04x, StreamKind 0x%04x, StreamId 0x%04x): a stream id can be read as a frame/stream kind or vice versa" % (fm, sm, im))
+        okid = all((i & im) == i for i in range(mx))
+        ctx.ob(R, "id range", okid, "every admitted stream id (< MAX_STREAM_COUNT = %d) is carried unchanged by the id mask 0x%04x" % (mx, im) if okid else
+               "MAX_STREAM_COUNT = %d admits ids the id mask 0x%04x cannot carry: ids alias each other" % (mx, im))
+    # accessor terms
+    def body(q):
+        fs = ctx.F.by_qname.get(q) or []
+        if fs:
+            return fs[0]
+        return getattr(ctx.F, "helpers", {}).get(q)
+    acc = {"frame_kind": fm, "stream_kind": sm, "stream_id": im}
+    n = 0
+    for name, mask in acc.items():
+        g = body(H + "::Header::" + name)
+        if g is None:
+            continue
+        t = Inliner(ctx).ret_term(g)
+        vals = [x[3] for x in subterms(t) if x[0] == "bin" and x[1] == "BitAnd"] if t is not None else []
+        ok = bool(vals) and all(v == ("const", mask) for v in vals)
+        n += 1
+        ctx.ob(R, "Header::%s" % name, ok, "self.0 & 0x%04x" % mask if ok else "Header::%s does not mask with its own field mask: %s" % (name, show(t)[:80] if t is not None else None), g.loc())
+    g = body(H + "::Header::new")
+    if g is not None:
+        t = Inliner(ctx).ret_term(g)
+        ors = [x for x in subterms(t) if x[0] == "field" and x[2] == "0" and x[1][0] == "param"] if t is not None else []
+        ok = t is not None and len(set(ors)) == 3 and not any(x[0] == "bin" and x[1] not in ("BitOr",) for x in subterms(t))
+        n += 1
+        ctx.ob(R, "Header::new", ok, "f.0 | s.0 | id.0" if ok else "Header::new = %s" % (show(t)[:100] if t is not None else None), g.loc())
+    enc = body(H + "::Header::raw")
+    dec = body("<" + H + "::Header as std::convert::From>::from")
+    if enc is not None and dec is not None:
+        te, td = Inliner(ctx).ret_term(enc), Inliner(ctx).ret_term(dec)
+        e = [x[1].rsplit("::", 1)[1] for x in subterms(te) if x[0] == "call" and "_bytes" in x[1]] if te is not None else []
+        d = [x[1].rsplit("::", 1)[1] for x in subterms(td) if x[0] == "call" and "_bytes" in x[1]] if td is not None else []
+        ok = len(e) == 1 and len(d) == 1 and e[0].replace("to_", "") == d[0].replace("from_", "")
+        n += 1
+        ctx.ob(R, "wire byte order", ok, "%s / %s" % (e[0], d[0]) if ok else "header written with %s but read with %s" % (e, d), enc.loc())
+    ctx.floor(R, "header accessors decided", n, 4)
+
+
 def rule_casts(ctx):
     R = "C14.8"
     ctx.rule(R, "narrowing-cast census in mux / noise / frame: every integer cast to a narrower type is one of the reviewed, bounded ones")
@@ -652,5 +705,5 @@ def rule_casts(ctx):
     ctx.floor(R, "narrowing casts inventoried", sum(len(v) for v in found.values()), 4)
 
 
-RULES = [("C14.1", rule_permit_before_buffer), ("C14.2", rule_config), ("C14.3", rule_stream_ids), ("C14.4", rule_frame_kind_dispatch), ("C14.5", rule_drop_order), ("C14.9", rule_cancel_safe_flush), ("C14.10", rule_write_order), ("C14.6", rule_one_transient),
+RULES = [("C14.11", rule_header_layout), ("C14.1", rule_permit_before_buffer), ("C14.2", rule_config), ("C14.3", rule_stream_ids), ("C14.4", rule_frame_kind_dispatch), ("C14.5", rule_drop_order), ("C14.9", rule_cancel_safe_flush), ("C14.10", rule_write_order), ("C14.6", rule_one_transient),
          ("C14.7", rule_reader), ("C14.8", rule_casts)]
